@@ -66,15 +66,16 @@ class cdict(dict):
             if not hasattr(cls, '__bases__'):
                 cls = cls.__class__
 
-            for b in reversed(cls.__bases__):
-                try:
-                    retval = self[b]
+            # Walk the method resolution order, so that the entry of the most
+            # specific registered base class wins wherever plain mixins stand
+            # in the list of bases.
+            for b in getattr(cls, '__mro__', (cls,) + cls.__bases__)[1:]:
+                if dict.__contains__(self, b):
+                    retval = dict.__getitem__(self, b)
                     # this is why a cdict instance must never be modified after
                     # the first lookup
                     self[cls] = retval
                     return retval
-                except KeyError:
-                    pass
             raise e
 
     def get(self, k, d=None):
